@@ -131,7 +131,18 @@ func c19bRun(c *ev.Ctx) {
 	cons.MinConfidence = []float64{0, 0.3, 0.65, 0.7, 1}[r.Intn(5)]
 	cons.MinStabilityPeriod = []time.Duration{0, time.Nanosecond, 30 * time.Second, time.Hour}[r.Intn(4)]
 	all := []rebalancing.Mode{rebalancing.ModeNone, rebalancing.ModeLazy, rebalancing.ModeIncremental}
-	switch r.Intn(5) {
+	switch r.Intn(7) {
+	case 5, 6:
+		// a list of 3-6 entries drawn from one or two modes (repeats), in any order; sometimes
+		// with a value that is no mode at all
+		k := r.Range(1, 2)
+		pick := []rebalancing.Mode{all[r.Intn(3)], all[r.Intn(3)]}[:k]
+		for i, n := 0, r.Range(3, 6); i < n; i++ {
+			cons.AllowedModes = append(cons.AllowedModes, pick[r.Intn(len(pick))])
+		}
+		if r.Chance(1, 5) {
+			cons.AllowedModes = append(cons.AllowedModes, rebalancing.Mode([]string{"immediate", "bogus", ""}[r.Intn(3)]))
+		}
 	case 0:
 		cons.AllowedModes = nil
 	case 1:
